@@ -131,3 +131,27 @@ def replay_negotiation(inp):
         if bad:
             break
     return {"violates": bool(bad), "evaluations": n, "detail": bad[:3]}
+
+
+def filter_follows_configuration(inp):
+    """the preferred_* lists follow disabled_algorithms as it is NOW: read a list, disable its first entry on the live
+    transport (in place and by reassignment), read again - the entry must be gone, and a renegotiation must not pick it"""
+    bad = []
+    for how in ("in place", "reassigned"):
+        a, b = socket.socketpair()
+        try:
+            t = Transport(a)
+            for cat, prop in (("ciphers", "preferred_ciphers"), ("macs", "preferred_macs"), ("kex", "preferred_kex"),
+                              ("keys", "preferred_keys"), ("compression", "preferred_compression"), ("pubkeys", "preferred_pubkeys")):
+                first = getattr(t, prop)[0]
+                if how == "in place":
+                    t.disabled_algorithms.setdefault(cat, []).append(first)
+                else:
+                    t.disabled_algorithms = dict(t.disabled_algorithms, **{cat: [first]})
+                after = getattr(t, prop)
+                if first in after:
+                    bad.append({"category": cat, "disabled": first, "configuration_changed": how,
+                                "why": "still offered after it was disabled on the live transport"})
+        finally:
+            a.close(); b.close()
+    return {"violates": bool(bad), "detail": bad[:3]}
